@@ -180,7 +180,7 @@ def _histories(ctx, col, np):
                 idx = [0] if shape == 'single' else [0, 1, 2]
                 cur = pool[idx].copy()                                   # tracked contents
                 K = cur[0].copy() if shape == 'single' else cur.copy()    # the array object handed to the library
-                step = 0
+                step = 0; held = []
                 for pos, ev in enumerate(seq):
                     if ev == 'Kall':
                         step += 1; idx = [(step * 3 + j) % 12 for j in range(len(idx))]; K[...] = pool[idx[0]] if shape == 'single' else pool[idx]
@@ -195,6 +195,7 @@ def _histories(ctx, col, np):
                         col.evaluations += 1; col.states += 1; col.transitions += 1
                         try:
                             got = np.asarray(calls[ev](K))
+                            held.append((pos, got, np.array(got)))
                         except Exception as e:
                             col.violation('C10/history/raised', '%s %s, call %d of %s: %s: %s' % (fam, shape, pos, list(seq), type(e).__name__, e), case); continue
                         exp = np.array([expect[ev](i) for i in idx])
@@ -202,6 +203,9 @@ def _histories(ctx, col, np):
                         if got.size != exp.size or not np.array_equal(got.reshape(exp.shape), exp):
                             col.violation('C10/history/%s' % fam, '%s %s: call %d (%s) of the sequence %s on the same key array object (rewritten in place between calls) does not return the schedule of its current '
                                           'contents %s' % (fam, shape, pos, ev, list(seq), np.atleast_2d(K)[-1].tolist()), case)
+                for pos_, arr, snap in held:
+                    if not np.array_equal(np.asarray(arr), snap):
+                        col.violation('C10/history/earlier-result-rewritten', 'the array returned by call %d of the sequence %s changed during later calls' % (pos_, list(seq)), {'kind': 'history', 'sequence': list(seq), 'position': pos_}); break
                 col.outcomes.add((fam, shape) + seq)
     col.sample({'check': 'call histories on reused key arrays', 'depth': depth}, limit=1)
 
